@@ -30,7 +30,9 @@ type Watcher struct {
 
 	mu      sync.Mutex
 	watched map[string]bool
-	closed  bool
+	// gen: which file under the name the watch is on (a watch is on the inode: see GenOf)
+	gen    map[string]int
+	closed bool
 	// AddErr, when set, makes the next Add calls fail (watch re-establishment faults)
 	AddErr int
 }
@@ -38,6 +40,9 @@ type Watcher struct {
 var (
 	mu       sync.Mutex
 	watchers []*Watcher
+	// GenOf, set by the simulator, numbers the files that have carried a name: a watch is registered on the
+	// file that carries the name at that moment and stays on it when another file takes the name over.
+	GenOf func(name string) int
 	// OnNewWatcher runs inside NewWatcher, OnAdded right after a watch was registered: the simulator's
 	// chance to let something happen to the file between the steps of a datasource's start-up.
 	OnNewWatcher func()
@@ -46,7 +51,7 @@ var (
 
 // NewWatcher creates a watcher and registers it so that the simulator can find it.
 func NewWatcher() (*Watcher, error) {
-	w := &Watcher{Events: make(chan Event), Errors: make(chan error), watched: map[string]bool{}}
+	w := &Watcher{Events: make(chan Event), Errors: make(chan error), watched: map[string]bool{}, gen: map[string]int{}}
 	mu.Lock()
 	watchers = append(watchers, w)
 	hook := OnNewWatcher
@@ -71,7 +76,7 @@ func Last() *Watcher {
 func Reset() {
 	mu.Lock()
 	watchers = nil
-	OnNewWatcher, OnAdded = nil, nil
+	OnNewWatcher, OnAdded, GenOf = nil, nil, nil
 	mu.Unlock()
 }
 
@@ -85,10 +90,14 @@ func (w *Watcher) Add(name string) error {
 		w.AddErr--
 		return errors.New("simulated: no such file or directory")
 	}
-	w.watched[name] = true
 	mu.Lock()
-	hook := OnAdded
+	hook, genOf := OnAdded, GenOf
 	mu.Unlock()
+	if !w.watched[name] && genOf != nil {
+		// (like fsnotify 1.4.7: Add for a name it already has an entry for does not move the entry to another file)
+		w.gen[name] = genOf(name)
+	}
+	w.watched[name] = true
 	if hook != nil {
 		w.mu.Unlock()
 		hook()
@@ -104,6 +113,7 @@ func (w *Watcher) Remove(name string) error {
 		return errors.New("can't remove non-existent watch")
 	}
 	delete(w.watched, name)
+	delete(w.gen, name)
 	return nil
 }
 
@@ -112,7 +122,16 @@ func (w *Watcher) Remove(name string) error {
 func (w *Watcher) Drop(name string) {
 	w.mu.Lock()
 	delete(w.watched, name)
+	delete(w.gen, name)
 	w.mu.Unlock()
+}
+
+// WatchGen reports which file under the name the watch is on.
+func (w *Watcher) WatchGen(name string) (int, bool) {
+	w.mu.Lock()
+	defer w.mu.Unlock()
+	g, ok := w.gen[name]
+	return g, ok && w.watched[name] && !w.closed
 }
 
 func (w *Watcher) Close() error {
